@@ -9,6 +9,9 @@ seeds = sorted(os.listdir(f'{V}/seeded'))
 if args:
     seeds = [s for s in seeds if s in args or s[:3] in args]
 claimed = {c['property_id'] for c in json.load(open(f'{V}/MANIFEST.json'))['checks']}
+import shutil, tempfile
+_evbak = tempfile.mkdtemp(prefix='evbak_')
+shutil.copytree(f'{V}/evidence', f'{_evbak}/evidence')   # evidence written while a seed is applied must not stay
 assert subprocess.run('git -C /repo status --porcelain', shell=True, capture_output=True, text=True).stdout.strip() == '', '/repo not clean'
 for s in seeds:
     prop = s[:3]
@@ -36,3 +39,4 @@ for s in seeds:
     print(s, 'CAUGHT' if meta['caught_by'] else f'MISSED (exit {p.returncode})', (detail[0][:140] if detail else ''), f'{time.time() - t0:.0f}s', flush=True)
 
 subprocess.run([f'{V}/check', '--setup'], capture_output=True)   # regenerate coq/Generated from the restored tree
+shutil.rmtree(f'{V}/evidence'); shutil.copytree(f'{_evbak}/evidence', f'{V}/evidence'); shutil.rmtree(_evbak)
